@@ -708,6 +708,10 @@ func GatedBrokerStress(seed int64, d time.Duration) CompResult {
 		}
 	}()
 	time.Sleep(d)
+	// (work decides, not the clock: on a loaded machine the same number of Sends is wanted)
+	for lim := time.Now().Add(20 * time.Second); atomic.LoadInt64(&marker) < 1500 && time.Now().Before(lim); {
+		time.Sleep(10 * time.Millisecond)
+	}
 	close(stop)
 	wg.Wait()
 	if err := gf.FlushAll(ctx); err != nil {
@@ -840,9 +844,17 @@ func OverwriteStress(seed int64, d time.Duration) []Problem {
 			}
 		}()
 	}
-	deadline := time.Now().Add(d)
-	for time.Now().Before(deadline) {
+	// the amount of work decides when the stress is over, not the clock: on a loaded machine the same number of overwrites
+	// and Sends is wanted (at least d, then until 4000 overwrites and 20000 Sends are done, at most 30 s)
+	deadline, limit := time.Now().Add(d), time.Now().Add(30*time.Second)
+	for n := 0; time.Now().Before(deadline) || ((n < 4000 || atomic.LoadInt64(&sends) < 20000) && time.Now().Before(limit)); n++ {
 		regVer()
+		pmu.Lock()
+		np := len(problems)
+		pmu.Unlock()
+		if np > 0 {
+			break
+		}
 	}
 	close(stop)
 	wg.Wait()
